@@ -8,3 +8,7 @@ import FeedVerif.Props.C18
 import FeedVerif.Model.BaseDriver
 import FeedVerif.Props.C05
 import FeedVerif.Model.CssDriver
+import FeedVerif.Model.DateDriver
+import FeedVerif.Lemmas.Civil
+import FeedVerif.Props.C14
+import FeedVerif.Props.C09
